@@ -123,6 +123,7 @@ func reusedBuffer(t *rapid.T, ev *evProp, key, ctx string, sch interface {
 		return
 	}
 	buf := append(make([]byte, 0, len(msg)+8), msg...)
+	buf[0] ^= 0x77 // a content nobody has used yet: whatever is remembered is remembered from THIS buffer
 	sig1, err := sch.Sign(x, buf)
 	if err != nil {
 		return // reported by the caller's own Sign check
